@@ -81,9 +81,54 @@ def child(bname, flipped):
     return {"name": "In" + bname, "style": "class", "decls": decls}
 
 
+# expressions built on a reference to a port that is itself tied to a bundle member
+PREF_SRC = [bref("b1", "y"), bref("pb1", "y"), bref("b2", "sub", "y"), idx(bref("b1", "y"), 1)]
+PREF_USE = ["whole", "idx0", "idx1", "rng", "cat", "cat_idx", "anon_member", "rev"]
+
+
+def design_prefexpr(desc):
+    _tag, si, use, n = desc
+    from .base import leaf_module
+
+    src = PREF_SRC[si]
+    w = 1 if src[0] == "idx" else 2
+    exts = dict([probe_ext(1), probe_ext(2), probe_ext(3), probe_ext(4)])
+    drv, en, ed = leaf_module("Drv", [("z", w)], tag=3)
+    exts[en] = ed
+    decls = [("sig", "s", 1), ("sig", "v", 2), probe("p_s", "s", 1, 5), probe("p_v", "v", 2, 5),
+             ("binst", "b1", "B1"), ("bport", "pb1", "B1", False, None), ("binst", "b2", "B2"),
+             ("inst", "q1x", ("ext", "P1", {"k": 11}), [("a", bref("b1", "x"))]), ("inst", "q1y", ("ext", "P2", {"k": 12}), [("a", bref("b1", "y"))]),
+             ("inst", "q2s", ("ext", "P1", {"k": 13}), [("a", bref("b2", "s"))]), ("inst", "q2x", ("ext", "P1", {"k": 14}), [("a", bref("b2", "sub", "x"))]),
+             ("inst", "q2y", ("ext", "P2", {"k": 15}), [("a", bref("b2", "sub", "y"))]),
+             ("inst", "d", ("mod", "Drv"), [("z", src)])]
+    r = pref("d", "z")
+    if use == "whole":
+        decls.append(("inst", "u", ("ext", f"P{w}", {"k": 20}), [("a", r)]))
+    elif use == "idx0":
+        decls.append(("inst", "u", ("ext", "P1", {"k": 20}), [("a", idx(r, 0))]))
+    elif use == "idx1":
+        decls.append(("inst", "u", ("ext", "P1", {"k": 20}), [("a", idx(r, w - 1))]))
+    elif use == "rng":
+        decls.append(("inst", "u", ("ext", f"P{w}", {"k": 20}), [("a", rng(r, 0, w))]))
+    elif use == "rev":
+        decls.append(("inst", "u", ("ext", f"P{w}", {"k": 20}), [("a", rng(r, None, None, -1))]))
+    elif use == "cat":
+        decls.append(("inst", "u", ("ext", f"P{w + 1}", {"k": 20}), [("a", cat(r, sig("s")))]))
+    elif use == "cat_idx":
+        decls.append(("inst", "u", ("ext", "P3", {"k": 20}), [("a", cat(idx(r, 0), sig("v")))]))
+    elif use == "anon_member":
+        decls.append(("inst", "u", ("mod", "InB1"), [("bp", anon(x=idx(r, 0), y=(r if w == 2 else sig("v")))), ("c", sig("s"))]))
+    mods = {"Drv": drv, "InB1": child("B1", False), "Top": {"name": "Top", "style": ["proc", "class", "gen"][n % 3], "decls": decls}}
+    return "F4/prefexpr", {"bundles": BUNDLES, "exts": exts, "modules": mods, "top": "Top"}
+
+
 def items(tier):
     out = []
     n = 0
+    for si in range(len(PREF_SRC)):
+        for use in PREF_USE:
+            out.append(("prefexpr", si, use, n))
+            n += 1
     for bname in ("B1", "B2", "B3"):
         f0, f1 = forms(bname, 0), forms(bname, 1)
         for a, c in itertools.product(range(len(f0)), range(len(f1))):
@@ -94,6 +139,8 @@ def items(tier):
 
 
 def design(desc):
+    if desc[0] == "prefexpr":
+        return design_prefexpr(desc)
     bname, a, c, flipped, n = desc
     e0, e1 = forms(bname, 0)[a], forms(bname, 1)[c]
     exts = dict([probe_ext(1), probe_ext(2), probe_ext(4)])
